@@ -124,6 +124,8 @@ func init() {
 		func(w *CliWorld, r *RunResult) { r.Nontrivial = c14ClientNontrivial(w) }))
 	register(cliFamily("C14", "c14-client-cancel-ends", 1, GenC14ClientCancelEnds, c14ClientOnline, c14ClientFinal,
 		func(w *CliWorld, r *RunResult) { r.Nontrivial = c14ClientNontrivial(w) }))
+	register(cliFamily("C14", "c14-client-stall", 1, GenC14ClientStall, c14ClientOnline, c14ClientFinal,
+		func(w *CliWorld, r *RunResult) { r.Nontrivial = c14ClientNontrivial(w) }))
 	register(cliFamily("C14", "c14-client-pad-empty", 1, GenC14ClientPadEmpty, c14ClientOnline, c14ClientFinal,
 		func(w *CliWorld, r *RunResult) { r.Nontrivial = c14ClientNontrivial(w) }))
 	register(&Family{Prop: "C08", Name: "c08-all", Weight: 3,
